@@ -219,8 +219,9 @@ func collectMetas(exclude map[string]bool) ([]HarnessMeta, error) {
 }
 
 type job struct {
-	meta  HarnessMeta
-	shard int // -1 = whole
+	meta   HarnessMeta
+	shard  int // task sequence number (for display)
+	prefix []int
 }
 
 type jobResult struct {
@@ -238,32 +239,59 @@ type jobResult struct {
 	wall       time.Duration
 }
 
+// pool is a work-stealing task pool: a task is a harness plus a forced trail prefix.
+type pool struct {
+	mu      sync.Mutex
+	cond    *sync.Cond
+	queue   []job
+	active  int
+	idle    int
+	seq     int
+	results []jobResult
+}
+
 func runJobs(prog *sym.Program, jobs []job, workers int, solver string, timeoutMs int, verbose bool) []jobResult {
-	ch := make(chan job)
-	var mu sync.Mutex
-	var results []jobResult
+	p := &pool{}
+	p.cond = sync.NewCond(&p.mu)
+	p.queue = append(p.queue, jobs...)
+	p.seq = len(jobs)
 	var wg sync.WaitGroup
 	for w := 0; w < workers; w++ {
 		wg.Add(1)
 		go func() {
 			defer wg.Done()
-			for j := range ch {
-				r := runJob(prog, j, solver, timeoutMs)
-				mu.Lock()
-				results = append(results, r)
-				if verbose {
-					fmt.Fprintf(os.Stderr, "  %-44s shard=%-2d paths=%-6d asserts=%-6d viol=%d inconc=%v %.1fs (solver %.1fs, %d q)\n",
-						j.meta.Name, j.shard, r.stats.Paths, r.stats.AssertQueries, len(r.violations), r.inconc, r.wall.Seconds(), r.solverTime.Seconds(), r.solverQ)
+			for {
+				p.mu.Lock()
+				for len(p.queue) == 0 && p.active > 0 {
+					p.idle++
+					p.cond.Wait()
+					p.idle--
 				}
-				mu.Unlock()
+				if len(p.queue) == 0 {
+					p.mu.Unlock()
+					p.cond.Broadcast()
+					return
+				}
+				// take the oldest task (shallowest prefix = biggest subtree)
+				j := p.queue[0]
+				p.queue = p.queue[1:]
+				p.active++
+				p.mu.Unlock()
+				r := runJob(prog, j, solver, timeoutMs, p)
+				p.mu.Lock()
+				p.active--
+				p.results = append(p.results, r)
+				if verbose {
+					fmt.Fprintf(os.Stderr, "  %-40s task=%-4d depth=%-3d paths=%-6d asserts=%-6d viol=%d inconc=%v %.1fs (solver %.1fs, %d q)\n",
+						j.meta.Name, j.shard, len(j.prefix), r.stats.Paths, r.stats.AssertQueries, len(r.violations), r.inconc, r.wall.Seconds(), r.solverTime.Seconds(), r.solverQ)
+				}
+				p.mu.Unlock()
+				p.cond.Broadcast()
 			}
 		}()
 	}
-	for _, j := range jobs {
-		ch <- j
-	}
-	close(ch)
 	wg.Wait()
+	results := p.results
 	sort.Slice(results, func(i, k int) bool {
 		if results[i].job.meta.Name != results[k].job.meta.Name {
 			return results[i].job.meta.Name < results[k].job.meta.Name
@@ -273,7 +301,27 @@ func runJobs(prog *sym.Program, jobs []job, workers int, solver string, timeoutM
 	return results
 }
 
-func runJob(prog *sym.Program, j job, solver string, timeoutMs int) (r jobResult) {
+func (p *pool) wantDonate() bool {
+	p.mu.Lock()
+	defer p.mu.Unlock()
+	return p.idle > 0 && len(p.queue) == 0
+}
+
+func (p *pool) give(meta HarnessMeta, prefixes [][]int) bool {
+	p.mu.Lock()
+	defer p.mu.Unlock()
+	if p.idle == 0 {
+		return false
+	}
+	for _, pf := range prefixes {
+		p.queue = append(p.queue, job{meta: meta, shard: p.seq, prefix: pf})
+		p.seq++
+	}
+	p.cond.Broadcast()
+	return true
+}
+
+func runJob(prog *sym.Program, j job, solver string, timeoutMs int, p *pool) (r jobResult) {
 	r.job = j
 	start := time.Now()
 	defer func() { r.wall = time.Since(start) }()
@@ -296,14 +344,6 @@ func runJob(prog *sym.Program, j job, solver string, timeoutMs int) (r jobResult
 		r.inconc = []string{"harness function missing: " + j.meta.Name}
 		return
 	}
-	if j.shard >= 0 {
-		m.ShardN, m.ShardI = j.meta.Split, j.shard
-		d := 2
-		for (1 << uint(d)) < 16*j.meta.Split {
-			d++
-		}
-		m.ShardDepth = d
-	}
 	func() {
 		defer func() {
 			if e := recover(); e != nil {
@@ -313,7 +353,7 @@ func runJob(prog *sym.Program, j job, solver string, timeoutMs int) (r jobResult
 				}
 			}
 		}()
-		res := m.Explore(fn)
+		res := m.Explore(fn, j.prefix, func(pf [][]int) bool { return p.give(j.meta, pf) }, p.wantDonate)
 		r.inconc = append(r.inconc, res.Inconclusive...)
 	}()
 	r.stats = m.Stats
@@ -603,13 +643,7 @@ func cmdCheck(prop, tier string, only *regexp.Regexp) int {
 			continue
 		}
 		selected = append(selected, hm)
-		if hm.Split > 1 {
-			for s := 0; s < hm.Split; s++ {
-				jobs = append(jobs, job{hm, s})
-			}
-		} else {
-			jobs = append(jobs, job{hm, -1})
-		}
+		jobs = append(jobs, job{meta: hm, shard: len(jobs)})
 	}
 	if len(selected) == 0 {
 		fmt.Fprintf(os.Stderr, "INCONCLUSIVE property=%s: no harness selected\n", prop)
